@@ -167,6 +167,54 @@ func valueFamily() *core.Family {
 	}
 }
 
+// scalar grids: the extension values whose text form goes through a calendar, a unit
+// table or a prefix rule, at the points where those rules change (leap days of every
+// kind of year, month ends, unit maxima, every prefix length); each alone, in a set and
+// as a record member.
+func scalarGrids() *core.Family {
+	var vals []Val
+	for _, y := range []int64{-400, -100, -4, -1, 0, 1, 4, 100, 400, 1600, 1900, 1972, 2000, 2023, 2024, 2100, 2400, 9999, 10000, 12000} {
+		for _, md := range [][2]int{{1, 1}, {2, 28}, {2, 29}, {3, 1}, {12, 31}} {
+			if md == [2]int{2, 29} && !((y%4 == 0 && y%100 != 0) || y%400 == 0) {
+				continue
+			}
+			day := DaysFromCivil(y, md[0], md[1])
+			for _, tod := range []int64{0, 45000000, 86399999} {
+				vals = append(vals, Datetime(day*86400000+tod))
+			}
+		}
+	}
+	for _, u := range []int64{86400000, 3600000, 60000, 1000, 1} {
+		for _, k := range []int64{1, 59, 106751991167, 9223372036854775807 / u} {
+			if k <= 9223372036854775807/u {
+				vals = append(vals, Duration(k*u), Duration(-k*u), Duration(k*u-1))
+			}
+		}
+	}
+	for p := 0; p <= 128; p++ {
+		vals = append(vals, IP6([16]byte{0: 0x20, 1: 0x01, 2: 0x0d, 3: 0xb8, 15: 1}, p))
+		if p <= 32 {
+			vals = append(vals, IP4(10, 1, 2, 3, p))
+		}
+	}
+	for _, d := range []int64{0, 1, -1, 9, 10, 99, 100, 999, 1000, 9999, 10000, 10001, -10000, 123456789, 9223372036854775807, -9223372036854775808} {
+		vals = append(vals, Decimal(d))
+	}
+	return &core.Family{
+		Name: "scalar-grids",
+		Desc: fmt.Sprintf("%d extension values at the points where their text rules change (leap days and month ends of 20 years incl. century / 400-year / year-0 / negative / 5-digit years, unit maxima of durations, every ip prefix length, decimals with every number of fraction digits): alone, in a set, as a record member", len(vals)),
+		N:    int64(len(vals)),
+		Run: func(t *core.T, i int64) {
+			v := vals[i]
+			checkValue(t, v)
+			checkValue(t, Set(v, Long(1)))
+			checkValue(t, Rec(KV{K: "k", V: v}))
+			t.Nontrivial()
+			t.SampleF(v.Key)
+		},
+	}
+}
+
 func scalarFamily(lo, hi rune) *core.Family {
 	const block = 512
 	n := (int64(hi-lo) + block) / block
@@ -750,7 +798,7 @@ func Check() *core.Check {
 		Assumptions: []string{"strings that are not valid UTF-8 are outside the domain (JSON cannot carry them)", "datetimes in the first representable day are excluded here (recorded under C12)"},
 		Families: func(tier string) []*core.Family {
 			initSchema()
-			fams := []*core.Family{valueFamily(), entityFamily(), entityMapFamily(), requestFamily(), typedSpellings(), spellingFamily(), UsedReceivers(), escapedKeys()}
+			fams := []*core.Family{valueFamily(), scalarGrids(), entityFamily(), entityMapFamily(), requestFamily(), typedSpellings(), spellingFamily(), UsedReceivers(), escapedKeys()}
 			if tier == "thorough" {
 				return append(fams, scalarFamily(0, 0x10FFFF))
 			}
